@@ -8,6 +8,8 @@
 //     PRE <graph> POST ERR <class>        LoadDyndeps returned false; class of the message
 //     PRE <graph> POST NONE               content "~"
 //     MANIFEST_ERR <message-hex>          the manifest itself does not parse (generator bug)
+//     CRASH <signal | exit:<code>>        the child running the scenario died (every scenario runs in
+//                                         a forked child; under ASan a memory error is exit:99)
 //   <graph> = G <nedges> {| <edge>}* # {<node>}*
 //   <edge>  = <outs> <implicit_outs_> <ins> <implicit_deps_> <order_only_deps_> R<0|1> S<0|1> D<dyndep|~>
 //             outs/ins = comma separated hex paths ("-" = none); R = GetBindingBool("restat");
@@ -15,6 +17,11 @@
 //   <node>  = <path-hex>:<index of in_edge() | ~>:<sorted indices of out_edges(), '.' separated | ->
 //             for every node that is an input or output of some edge, sorted by path
 #include "common.h"
+
+#include <fcntl.h>
+#include <sys/types.h>
+#include <sys/wait.h>
+#include <unistd.h>
 
 #include <algorithm>
 #include <set>
@@ -194,10 +201,29 @@ std::string run_scenario(const std::string& line) {
 }
 
 int run_dyndep(int, char**) {
-  std::string line;
-  while (std::getline(std::cin, line)) {
-    std::string r = run_scenario(line);
-    printf("%s\n", r.c_str());
+  // all input is read before the first fork (a child leaving through exit() may move the shared
+  // stdin offset); the child's stderr (sanitizer report) is discarded
+  std::vector<std::string> lines;
+  {
+    std::string l;
+    while (std::getline(std::cin, l)) lines.push_back(l);
+  }
+  for (const std::string& line : lines) {
+    fflush(stdout);
+    pid_t pid = fork();
+    if (pid < 0) { perror("fork"); return 3; }
+    if (pid == 0) {
+      int nfd = open("/dev/null", O_RDWR);
+      if (nfd >= 0) { dup2(nfd, 0); dup2(nfd, 2); close(nfd); }
+      std::string r = run_scenario(line);
+      printf("%s\n", r.c_str());
+      fflush(stdout);
+      _exit(0);
+    }
+    int status = 0;
+    waitpid(pid, &status, 0);
+    if (WIFSIGNALED(status)) printf("CRASH %d\n", WTERMSIG(status));
+    else if (!WIFEXITED(status) || WEXITSTATUS(status) != 0) printf("CRASH exit:%d\n", WEXITSTATUS(status));
   }
   return 0;
 }
